@@ -19,8 +19,12 @@ pub mod sync {
 
         pub mod error {
             use core::fmt;
-            #[derive(PartialEq, Eq, Clone, Copy)]
-            pub struct SendError<T>(pub T);
+            /// MODEL DEVIATION: the rejected message is wrapped in `ManuallyDrop`, i.e. it is leaked
+            /// instead of dropped when the caller discards the error. Dropping a
+            /// `Result<(), SendError<T>>` otherwise makes CBMC explore `T`'s drop glue on the `Ok`
+            /// path too (niche-encoded tag; measured: > 10 GB). The code under test never reads
+            /// the payload of a `SendError`.
+            pub struct SendError<T>(pub core::mem::ManuallyDrop<T>);
             impl<T> fmt::Debug for SendError<T> {
                 fn fmt(&self, f: &mut fmt::Formatter<'_>) -> fmt::Result {
                     f.write_str("SendError")
@@ -54,8 +58,11 @@ pub mod sync {
         }
         use error::{SendError, TryRecvError, TrySendError};
 
+        // Slots are `MaybeUninit` with the occupancy implied by (head, len): nothing in the model
+        // depends on a niche-encoded `Option` tag and no drop glue of `T` is ever run by the model
+        // (CBMC cannot fold niche tags and would explore the drop of garbage values).
         pub(crate) struct State<T> {
-            buf: [Option<T>; crate::QCAP],
+            buf: [core::mem::MaybeUninit<T>; crate::QCAP],
             head: usize,
             len: usize,
             cap: usize,
@@ -75,7 +82,7 @@ pub mod sync {
                 T: 'static,
             {
                 let s = Shared(UnsafeCell::new(State {
-                    buf: core::array::from_fn(|_| None),
+                    buf: [const { core::mem::MaybeUninit::uninit() }; crate::QCAP],
                     head: 0,
                     len: 0,
                     cap,
@@ -95,7 +102,7 @@ pub mod sync {
                     panic!("tokio-model bound exceeded: more than QCAP queued messages");
                 }
                 let idx = (s.head + s.len) % crate::QCAP;
-                s.buf[idx] = Some(v);
+                s.buf[idx].write(v);
                 s.len += 1;
             }
             fn pop(&self) -> Option<T> {
@@ -103,10 +110,10 @@ pub mod sync {
                 if s.len == 0 {
                     return None;
                 }
-                let v = s.buf[s.head].take();
+                let v = unsafe { s.buf[s.head].assume_init_read() };
                 s.head = (s.head + 1) % crate::QCAP;
                 s.len -= 1;
-                v
+                Some(v)
             }
             fn closed(&self) -> bool {
                 let s = self.st();
@@ -155,7 +162,7 @@ pub mod sync {
             fn poll(mut self: core::pin::Pin<&mut Self>, _cx: &mut Context<'_>) -> Poll<Self::Output> {
                 if self.tx.0.closed() {
                     let v = self.value.take().expect("polled after completion");
-                    return Poll::Ready(Err(SendError(v)));
+                    return Poll::Ready(Err(SendError(core::mem::ManuallyDrop::new(v))));
                 }
                 if self.tx.0.st().len >= self.tx.0.st().cap {
                     return Poll::Pending;
@@ -246,7 +253,7 @@ pub mod sync {
         impl<T> UnboundedSender<T> {
             pub fn send(&self, message: T) -> Result<(), SendError<T>> {
                 if self.0.closed() {
-                    return Err(SendError(message));
+                    return Err(SendError(core::mem::ManuallyDrop::new(message)));
                 }
                 self.0.push(message);
                 Ok(())
@@ -347,9 +354,20 @@ pub mod sync {
         }
 
         struct State<T> {
-            value: Option<T>,
+            value: core::mem::MaybeUninit<T>,
+            has_value: bool,
             rx_alive: bool,
             tx_done: bool,
+        }
+        impl<T> State<T> {
+            fn take(&mut self) -> Option<T> {
+                if self.has_value {
+                    self.has_value = false;
+                    Some(unsafe { self.value.assume_init_read() })
+                } else {
+                    None
+                }
+            }
         }
         struct Shared<T>(UnsafeCell<State<T>>);
         unsafe impl<T> Send for Shared<T> {}
@@ -366,7 +384,8 @@ pub mod sync {
 
         pub fn channel<T: 'static>() -> (Sender<T>, Receiver<T>) {
             let s: &'static Shared<T> = Box::leak(Box::new(Shared(UnsafeCell::new(State {
-                value: None,
+                value: core::mem::MaybeUninit::uninit(),
+                has_value: false,
                 rx_alive: true,
                 tx_done: false,
             }))));
@@ -378,7 +397,8 @@ pub mod sync {
                 if !s.rx_alive {
                     return Err(t);
                 }
-                s.value = Some(t);
+                s.value.write(t);
+                s.has_value = true;
                 Ok(())
                 // `self` dropped here: tx_done = true
             }
@@ -399,7 +419,7 @@ pub mod sync {
         impl<T> Receiver<T> {
             pub fn try_recv(&mut self) -> Result<T, error::TryRecvError> {
                 let s = self.0.st();
-                if let Some(v) = s.value.take() {
+                if let Some(v) = s.take() {
                     return Ok(v);
                 }
                 if s.tx_done {
@@ -417,7 +437,7 @@ pub mod sync {
             type Output = Result<T, error::RecvError>;
             fn poll(self: core::pin::Pin<&mut Self>, _cx: &mut Context<'_>) -> Poll<Self::Output> {
                 let s = self.0.st();
-                if let Some(v) = s.value.take() {
+                if let Some(v) = s.take() {
                     return Poll::Ready(Ok(v));
                 }
                 if s.tx_done {
